@@ -1054,8 +1054,6 @@ def parse_arm_head(path, pat):
                 atoms.append("AChars None")
             elif len(rv) == 5 and rv[0] == "(" and rv[2] == "," and rv[4] == ")" and rest[1].k == "id" and rest[3].k == "id":
                 atoms.append("AChars None")     # (binder|_, binder|_)
-            elif len(rv) == 8 and rv[:4] == ["(", "SplitStatus", "::", rv[3]] and rv[4] == "," and rv[6:] == [")"] + [] and False:
-                pass
             elif len(rv) == 7 and rv[0] == "(" and rv[1] == "SplitStatus" and rv[2] == "::" and rv[3] in SPLIT and rv[4] == "," \
                     and rest[5].k == "id" and rv[6] == ")":
                 atoms.append("AChars (Some %s)" % SPLIT[rv[3]])
@@ -1175,8 +1173,6 @@ def parse_dispatch(known_names):
     mo, mc = parse_token_match(F_RULES, toks, o + 1, c - 1, "step_foreign")
     farms = arms_of(mo, mc, "step_foreign")
     modes.append(("Foreign", farms, ""))
-    # break-out list = the tag! arm whose body is exactly the break-out call
-    bo = [x for x in farms if norm_eq(x, "self . unexpected_start_tag_in_foreign_content ( tag )")]
     return variants, modes, toks
 
 
